@@ -682,6 +682,11 @@ def run(prog, rep, tier):
     rep.rule('INDEX-wrap', 'mps2lat_idx receives the un-reduced MPS index')
     if check_index_wrap(prog, rep) < 5:
         raise AnalysisError('INDEX-wrap: calls of mps2lat_idx not found')
+    from ..flow import check_mod_compare
+    rep.rule('INDEX-mod-compare', 'periodic equality of indices is tested as (a - b) % L == 0, never '
+             'as a % L == b with an unreduced b')
+    check_mod_compare(prog, rep, ['tenpy/networks/mpo.py', 'tenpy/networks/terms.py',
+                                  'tenpy/models/model.py'])
     return rep.finish(
         level='other',
         explanation='plus_hc / explicit_plus_hc protocol decided for %d sibling add_* methods of '
